@@ -28,7 +28,8 @@ type source struct {
 	db     *sm.RecDB
 	root   []byte
 	needed map[string][]byte
-	nested int // entries outside the top-level trie (storage tries, code, validators, event logs)
+	twins  bool // contains values needed in two buckets at once
+	nested int  // entries outside the top-level trie (storage tries, code, validators, event logs)
 
 	// attach registers the structure with the builder (as the real syncers do)
 	// and returns a function that observes the object the builder handed out.
@@ -41,6 +42,29 @@ type extraAcc struct {
 	id      []byte
 	balance *big.Int
 	tmpl    int
+	code    []byte // pending contract code (twin accounts)
+}
+
+// templateNodes returns the serialized hashed nodes of the storage trie that
+// a filler account with the given template has.
+func templateNodes(tmpl int) [][]byte {
+	scratch := sm.NewRecDB()
+	m := trie_manager.NewMutable(scratch, nil)
+	for _, kv := range templates[tmpl] {
+		if _, err := m.Set(kv[0], kv[1]); err != nil {
+			panic(err)
+		}
+	}
+	snap := m.GetSnapshot()
+	if err := snap.Flush(); err != nil {
+		panic(err)
+	}
+	ent := scratch.Entries()
+	var out [][]byte
+	for _, ek := range sm.SortedKeys(ent) {
+		out = append(out, ent[ek])
+	}
+	return out
 }
 
 // storage templates shared by several filler accounts: identical storage
@@ -111,6 +135,37 @@ func buildWorld(r *rand.Rand) *source {
 		}
 		extras = append(extras, e)
 	}
+	// "twins": the same bytes needed in two buckets that share the sha3
+	// hasher — a contract whose code is byte-identical to a serialized
+	// storage-trie node of another account (MerkleTrie node + BytesByHash code).
+	if r.Intn(3) == 0 {
+		tmpl := 2 + r.Intn(2)
+		nodes := templateNodes(tmpl)
+		holder := make([]byte, 20)
+		r.Read(holder)
+		e := extraAcc{id: holder, balance: big.NewInt(7), tmpl: tmpl}
+		as := ws.GetAccountState(holder)
+		as.SetBalance(e.balance)
+		for _, kv := range templates[tmpl] {
+			if _, err := as.SetValue(kv[0], kv[1]); err != nil {
+				panic(err)
+			}
+		}
+		extras = append(extras, e)
+		for j, n := 0, 1+r.Intn(2); j < n; j++ {
+			id := make([]byte, 20)
+			r.Read(id)
+			t := extraAcc{id: id, balance: big.NewInt(9), code: nodes[r.Intn(len(nodes))]}
+			ts := ws.GetAccountState(id)
+			ts.SetBalance(t.balance)
+			ts.InitContractAccount(sm.Owners[0])
+			if _, err := ts.DeployContract(t.code, ss.JavaEE, ss.CTAppJava, nil, crypto.SHA3Sum256(id)); err != nil {
+				panic(err)
+			}
+			extras = append(extras, t)
+		}
+		src.twins = true
+	}
 	wss := ws.GetSnapshot()
 	if err := wss.Flush(); err != nil {
 		panic(err)
@@ -152,6 +207,13 @@ func buildWorld(r *rand.Rand) *source {
 			for _, kv := range templates[e.tmpl] {
 				if v, err := as.GetValue(kv[0]); err != nil || !bytes.Equal(v, kv[1]) {
 					out = append(out, fmt.Sprintf("%s: filler account %x storage %x = %x err %v", what, e.id, kv[0], v, err))
+				}
+			}
+			if e.code != nil {
+				if nc := as.NextContract(); nc == nil {
+					out = append(out, fmt.Sprintf("%s: twin account %x has no pending contract", what, e.id))
+				} else if code, err := nc.Code(); err != nil || !bytes.Equal(code, e.code) {
+					out = append(out, fmt.Sprintf("%s: twin account %x code %x err %v, want %x", what, e.id, code, err, e.code))
 				}
 			}
 		}
